@@ -425,7 +425,7 @@ func getOffer(header []byte, isAccepted func(spec, offer string, specParams head
 			// Optimized quality parsing
 			qIndex := i + 3
 			if bytes.HasPrefix(accept[i:], []byte(";q=")) && bytes.IndexByte(accept[qIndex:], ';') == -1 {
-				if q, err := fasthttp.ParseUfloat(accept[qIndex:]); err == nil {
+				if q, err := fasthttp.ParseUfloat(bytes.TrimRight(accept[qIndex:], " \t")); err == nil {
 					quality = q
 				}
 			} else {
